@@ -50,14 +50,18 @@ pub fn run_one(ctx: &Ctx, rep: &mut Report, seq: &[usize], seed: u64, label: &st
     }
     let seq_v: Vec<usize> = seq.to_vec();
     let pa = probe_addr.clone();
+    let good_served = Rc::new(std::cell::Cell::new(false));
+    let gs = good_served.clone();
     let tracker_fn: Box<dyn FnMut(u64, &crate::sim::Log) -> TrackerStep> = Box::new(move |nth, log| {
         if (nth as usize) < seq_v.len() { return step_of(seq_v[nth as usize]); }
-        if !has_probe { return TrackerStep::Good; }
+        if !has_probe { gs.set(true); return TrackerStep::Good; }
         // gate: keep failing until the probe has been answered, at most 30 rounds after it connected
         let answered = log.0.borrow().events.iter().any(|e| e.addr == pa && matches!(&e.kind, EvKind::Send { msg: Msg::Handshake { .. }, .. }));
-        if answered || nth >= probe_round + MAX_ROUNDS_UNANSWERED + 2 { TrackerStep::Good } else { step_of(seq_v[(nth as usize) % seq_v.len()]) }
+        if answered || nth >= probe_round + MAX_ROUNDS_UNANSWERED + 2 { gs.set(true); TrackerStep::Good } else { step_of(seq_v[(nth as usize) % seq_v.len()]) }
     });
-    let max_ms = (l + MAX_ROUNDS_UNANSWERED + 10) * 1100 + 30_000;
+    // the property sets no pace for the retries: the horizon allows a minute of virtual time per
+    // round, and a run in which the good reply was not even asked for by then is inconclusive
+    let max_ms = (l + MAX_ROUNDS_UNANSWERED + 10) * 60_000 + 30_000;
     let cfg = SimCfg { torrent: torrent.clone(), peers, tracker: vec![], failpoints: None, max_virtual_ms: max_ms, stop_on_extract: true, linger_ms: 200, disk_on: disk_never, seed, pre: None, tracker_fn: Some(tracker_fn), driver: None };
     rep.evaluations += 1;
     let o = run_sim(cfg, &ctx.scratch, 180);
@@ -103,6 +107,9 @@ pub fn run_one(ctx: &Ctx, rep: &mut Report, seq: &[usize], seed: u64, label: &st
     // (2) the first good reply is followed by contacting the listed peers with a correct handshake
     let good_at = o.mgr().find(|(_, k, _)| *k == "TrackerResp").map(|(e, _, _)| e.ms);
     match good_at {
+        None if !good_served.get() => {
+            rep.inconclusive(format!("only {} announces in {} s of virtual time: the good reply after {} faults was never asked for", o.tracker_calls, o.end_ms / 1000, l));
+        }
         None => {
             rep.violation("C19:good-reply-never-processed", format!("after {} faults the good reply was never handled by the manager (tracker announces made: {})", l, o.tracker_calls), json!({"scenario": desc, "trace": trace()}));
         }
